@@ -94,7 +94,8 @@ StrongSep ==
 AmbigParts ==
   [ fr |-> <<"le vingt neuf", "du cent neuf", "un logement neuf", "le numéro neuf", "un chat neuf", "le neuf", "du neuf", "un neuf deux",
              "le vingt neuf alors voilà bien", "l'appartement neuf", "du pain neuf dix", "le mille neuf cent",
-             "la première", "le premier", "vingt-et-unième", "vingt-et-unièmes", "neuf cents">>,
+             "la première", "le premier", "vingt-et-unième", "vingt-et-unièmes", "neuf cents",
+             "le logement. neuf chats", "un chat. neuf chats dorment", "du pain. neuf">>,
     en |-> <<"o one", "the o", "o", "twenty o", "o apples", "one o two", "o eight hundred", "twenty-first", "twenty-firsts", "the fifth", "two fifths", "a hundred", "an hour">>,
     es |-> <<"uno dos", "vigésimo primero", "vigésima primera", "vigésimos primeros", "centésimo", "centésima", "un doceavo", "dos doceavos">>,
     pt |-> <<"um dois", "vigésimo primeiro", "vigésima primeira", "vigésimos primeiros", "centésimo", "centésima">>,
